@@ -27,7 +27,7 @@ ASSUMPTIONS = [
 ]
 SITES = [
     "object_subschema", "multipleOf_float", "multipleOf_int", "number", "integer", "bounds", "uniqueItems", "format_datetime",
-    "format_uuid", "pattern", "propertyNames", "const_enum", "model_keys", "items_deep", "properties_deep",
+    "format_uuid", "format_other", "pattern", "propertyNames", "const_enum", "model_keys", "items_deep", "properties_deep",
     "composition_wrapped", "not_wrapped", "dependencies", "contains", "minmax_lengths",
 ]
 REQUIRED_COUNTERS = (
@@ -108,6 +108,10 @@ def site_schema(rng, site):
         return {key: rng.choice([0, 1.5, 10 ** 400, -(10 ** 400), 1.7976931348623157e308, 5e-324, 2 ** 53 + 1])}
     if site == "uniqueItems":
         return {"uniqueItems": True, "type": rng.choice(["array", ["array", "null"]])}
+    if site == "format_other":
+        # names the library registers nothing under today (and strings built to upset whatever might be)
+        return {"format": rng.choice(["regex", "int32", "int64", "email", "ipv4", "uri", "hostname", "time", "date",
+                                      "json-pointer", "uri-template", "idn-email"])}
     if site == "format_datetime":
         return {"format": "date-time", "type": rng.choice(["string", ["string", "null"]])}
     if site == "format_uuid":
@@ -172,6 +176,9 @@ def value_for_site(rng, site):
         if base and rng.random() < 0.4:
             base.append(gv.lookalike(rng, rng.choice(base)))
         return base
+    if site == "format_other":
+        return rng.choice(["a{4294967295}", "(" * 1200 + ")" * 1200, "[", "*", "a{2,1}", 2 ** 31, 2 ** 63, 10 ** 400,
+                           "x@" * 2000, "1.1.1.999", gv.hostile_scalar(rng), gv.hostile_scalar(rng)])
     if site in ("format_datetime", "format_uuid", "pattern"):
         if rng.random() < 0.85:
             val = gv.hostile_scalar(rng)
@@ -383,7 +390,13 @@ def boolean_and_untitled_roots(ctx, sut):
     cases = [("parse", True), ("parse", False), ("parse_element", True), ("parse_element", False),
              ("parse_element", {"type": "object", "const": HUGE_TOKEN}),
              ("parse", {"type": "object", "properties": {"a": {"type": "object", "enum": [HUGE_TOKEN]}}}),
-             ("parse", {"definitions": {"t": True, "f": False}, "type": "string"})]
+             ("parse", {"definitions": {"t": True, "f": False}, "type": "string"}),
+             # untitled objects that carry an identifier of their own (a plain-name fragment, a pointer, a URL)
+             ("parse_element", {"type": "object", "$id": "#address"}),
+             ("parse", {"type": "object", "$id": "root.json#address", "properties": {}}),
+             ("parse_element", {"type": "object", "$id": "#/definitions/items"}),
+             ("parse_element", {"type": "array", "items": {"type": "object", "$id": "http://example.com/a b#x y"}}),
+             ("parse_element", {"type": "object", "$id": ""}), ("parse_element", {"type": "object", "$id": "#"})]
     for idx, (route, shape) in enumerate(cases):
         if idx % ctx.nshards != ctx.shard:
             continue
